@@ -290,11 +290,14 @@ class Melody(events_lib.SimpleEventSequence):
     self._steps_per_quarter = (
         quantized_sequence.quantization_info.steps_per_quarter)
 
-    # Sort track by note start times, and secondarily by pitch descending.
+    # Sort track by note start times, and secondarily by pitch descending. The
+    # end step breaks ties between duplicate notes, so that the note that is
+    # kept does not depend on the order in which the notes are stored.
     notes = sorted([n for n in quantized_sequence.notes
                     if n.instrument == instrument and
                     n.quantized_start_step >= search_start_step],
-                   key=lambda note: (note.quantized_start_step, -note.pitch))
+                   key=lambda note: (note.quantized_start_step, -note.pitch,
+                                     note.quantized_end_step))
 
     if not notes:
       return
